@@ -69,7 +69,15 @@ def generate(seed, tier):
     data = {"N": N + d, "channels": 1, "recipe": rw.choice(["noise", "noise", "multisine", "trend+noise", "randwalk", "sine+noise"]),
             "rng": rw.randrange(2 ** 31), "scale": rw.choice([1.0, 1e-3, 1e3]), "offset": rw.choice([0.0, 0.0, 1.0]), "coupling": 0.0}
     singles = [[rw.randrange(0, 64)] for _ in range(rw.randrange(0, 3))]
-    return {"law": law, "g": g, "d": d, "N": N, "data": data, "cfg": cfg, "singles": singles,
+    # further stages: the caller refills the SAME preallocated buffer in place and analyses again
+    refills = []
+    for _ in range(rw.choice([0, 0, 1, 1, 2]) if not big else rw.choice([0, 1])):
+        law2 = rw.choice(["gain", "delay"])
+        d2 = rw.randrange(1, max(2, Lmin // 16 + 1)) if law2 == "delay" else 0
+        g2 = rw.choice([1.0, -1.0, 2.0, 0.5, -3.0, 7.0])
+        data2 = dict(data, recipe=rw.choice(["noise", "multisine", "randwalk"]), rng=rw.randrange(2 ** 31), N=N + d2)
+        refills.append({"law": law2, "g": g2, "d": d2, "data": data2})
+    return {"law": law, "g": g, "d": d, "N": N, "data": data, "cfg": cfg, "singles": singles, "refills": refills,
             "worlds": [W.gen_world(rf, k, 8) for k in kinds], "clock": CK.gen_clock(R.stream(seed, "clock"), p_none=0.5)}
 
 
@@ -85,8 +93,24 @@ def _records(sc):
 
 
 def execute(sc, out):
+    """Stage 0 and every refill stage run on ONE caller-owned (2, N) buffer that is overwritten in place
+    (an analyzer may alias it; any cache keyed by buffer identity instead of content shows up here)."""
+    stages = [sc] + [dict(sc, **r) for r in sc.get("refills", [])]
+    buf = np.empty((2, sc["N"]), dtype=np.float64)
+    for si, st in enumerate(stages):
+        if si:
+            out.count("buffer_refilled_in_place")
+        _execute_stage(st, out, buf, si)
+        if out.discarded:
+            return
+
+
+def _execute_stage(sc, out, buf, stage):
     x, y = _records(sc)
-    data = np.vstack([x, y])
+    buf[0, :] = x
+    buf[1, :] = y
+    data = buf
+    x, y = x.copy(), y.copy()
     cfg0 = sc["cfg"]
     fs = cfg0["fs"]
     d, g, law = sc["d"], sc["g"], sc["law"]
@@ -173,7 +197,7 @@ def execute(sc, out):
                 Xabs = np.sqrt(xx)
                 tol = abs(g) * (1e-9 + 64 * RM.EPS * max(L, 8) ** 2 * S / Xabs)
                 if not abs(h - g) <= tol:
-                    out.violate("gain_law", f"backend={backend} via={via}", f"world={world} bin {j} (f={f[j]:.6g}, L={L}): Hxy={h!r}, expected g={g!r} (tol {tol:.2e})")
+                    out.violate("gain_law", f"backend={backend} via={via}", f"stage {stage} world={world} bin {j} (f={f[j]:.6g}, L={L}): Hxy={h!r}, expected g={g!r} (tol {tol:.2e})")
                 if not abs(c - 1.0) <= 1e-9 + 64 * RM.EPS * max(L, 8) ** 2 * S / Xabs:
                     out.violate("gain_coherence", f"backend={backend} via={via}", f"world={world} bin {j}: coherence {c!r} for y = g*x")
             else:
@@ -183,7 +207,7 @@ def execute(sc, out):
                 dev = h * np.exp(1j * omega[j] * d)
                 if not (abs(np.angle(dev)) < 0.5 and abs(abs(h) - 1.0) < 0.5):
                     out.violate("delay_law", f"backend={backend} via={via}",
-                                f"world={world} bin {j} (f={f[j]:.6g}, L={L}, d={d}): arg Hxy={np.angle(h):.4f} rad, expected {-(omega[j] * d):.4f} (mod 2pi); |Hxy|={abs(h):.4f}")
+                                f"stage {stage} world={world} bin {j} (f={f[j]:.6g}, L={L}, d={d}): arg Hxy={np.angle(h):.4f} rad, expected {-(omega[j] * d):.4f} (mod 2pi); |Hxy|={abs(h):.4f}")
     # identical across backends (within the rounding budget relative to XX)
     ws_ = list(per_world.items())
     for (wa, (ra, _)), (wb, (rb, _)) in zip(ws_, ws_[1:]):
@@ -202,9 +226,9 @@ def execute(sc, out):
                 break
     out.count("guarded_bins", nguard)
     out.count("law_" + law)
-    out.nontrivial = bool(nguard >= 3 and len(per_world) >= 2)
+    out.nontrivial = bool(out.nontrivial or (nguard >= 3 and len(per_world) >= 2))
     out.sim_time_s += clock.elapsed()
-    out.summary = {"law": law, "g": g, "d": d, "nf": nf, "guarded": nguard, "worlds": list(per_world)}
+    out.summary = {"law": law, "g": g, "d": d, "nf": nf, "guarded": nguard, "worlds": list(per_world), "stages": stage + 1}
 
 
 def size(sc):
@@ -220,6 +244,8 @@ def shrink_candidates(sc):
             c = copy.deepcopy(sc); c["worlds"][i]["serial"] = True; yield c
     if sc["singles"]:
         c = copy.deepcopy(sc); c["singles"] = []; yield c
+    for i in range(len(sc.get("refills", []))):
+        c = copy.deepcopy(sc); del c["refills"][i]; yield c
     if sc.get("clock"):
         c = copy.deepcopy(sc); c["clock"] = None; yield c
     if sc["cfg"].get("band") is not None:
